@@ -886,6 +886,9 @@ func c08Table(r *rand.Rand, tier string) []c08Scenario {
 		{"zero-updated-new-created", c08PreFile{Kind: "meta", CreatedAge: c08ms(1000), NoUpdated: true}},
 		{"no-times", c08PreFile{Kind: "meta", NoCreated: true, NoUpdated: true}},
 		{"old-created-fresh-updated", c08PreFile{Kind: "meta", CreatedAge: c08ms(3600000), UpdatedAge: c08ms(4000)}},
+		// a lock held (and refreshed) for hours or days: however old Created is, a current Updated keeps it
+		{"created-3h-ago-fresh-updated", c08PreFile{Kind: "meta", CreatedAge: 3 * time.Hour, UpdatedAge: c08ms(300)}},
+		{"created-3d-ago-fresh-updated", c08PreFile{Kind: "meta", CreatedAge: 72 * time.Hour, UpdatedAge: c08ms(300)}},
 		{"empty-old", c08PreFile{Kind: "empty", MtimeAge: c08ms(30000)}},
 		{"empty-just-modified", c08PreFile{Kind: "empty"}},
 		{"whitespace-old", c08PreFile{Kind: "ws", MtimeAge: c08ms(11500)}},
